@@ -15,7 +15,10 @@ nix_manipulator). Anything outside the fragment is refused with `OutsideFragment
                   `{ a, b }: …` and `x@{ … }: …` are refused as "function with formals"),
                   `! comments operand` / `- comments operand` (unary_expression),
                   `left comments OP comments right` (binary_expression; OP one of `//` `++` `+` `-` `*` `/`
-                  `==` `!=` `<` `<=` `>` `>=` `&&` `||` `->`; `a ? b` (has_attr_expression) is refused)
+                  `==` `!=` `<` `<=` `>` `>=` `&&` `||` `->`),
+                  `if comments condition comments then comments consequence comments else comments alternative`
+                  (if_expression), `expression comments ? comments a₁.a₂.….aₙ` (has_attr_expression; attrpath as for
+                  a select)
     set members : bindings whose attrpath is ONE identifier or "string" (no inherit, no `${…}` name),
                   comments anywhere between the tokens of a binding, none between `rec` and `{`
 
@@ -79,6 +82,8 @@ class _Conv:
     #      | ("F1", name, c1, g1, c2, g2, body)                    name c1 g1 `:` c2 g2 body
     #      | ("U", op, c, g, operand)                              op c g operand
     #      | ("B", l, c1, g1, op, c2, g2, r)                       left c1 g1 op c2 g2 right
+    #      | ("I", c1, g1, cond, c2, g2, c3, g3, thn, c4, g4, c5, g5, els)   `if` … `then` … `else` …
+    #      | ("H", cst, c1, g1, c2, g2, [segment text])             expression c1 g1 `?` c2 g2 attrpath
     # item : ("c", gap, text) | ("e", gap, cst) | ("b", gap, name, c1, g1, c2, g2, cst, c3, g3)
     def expr(self, n):
         k = LEAF_KINDS.get(n.type)
@@ -175,7 +180,80 @@ class _Conv:
             return self.unary(n)
         if n.type == "binary_expression":
             return self.binary(n)
+        if n.type == "if_expression":
+            return self.ite(n)
+        if n.type == "has_attr_expression":
+            return self.has_attr(n)
         raise OutsideFragment(n.type)
+
+    def ite(self, n):
+        """`if` c1 g1 condition c2 g2 `then` c3 g3 consequence c4 g4 `else` c5 g5 alternative"""
+        shape = OutsideFragment("if shape")
+        ch = n.children
+        cond, thn, els = (n.child_by_field_name(f) for f in ("condition", "consequence", "alternative"))
+        if cond is None or thn is None or els is None or len(ch) < 6 or ch[0].type != "if" or ch[-1].id != els.id:
+            raise shape
+        if self.t(ch[0].start_byte, ch[0].end_byte) != "if":
+            raise shape
+        # stages: 0 before the condition, 1 before `then`, 2 before the consequence, 3 before `else`, 4 before the
+        # alternative
+        want = [cond, "then", thn, "else", els]
+        runs = [[], [], [], [], []]
+        gaps = [None] * 5
+        parts = [None] * 5
+        stage, pos, prev = 0, ch[0].end_byte, ch[0]
+        for c in ch[1:]:
+            g = self.gap(pos, c.start_byte)
+            self.rows(prev, c, g)
+            if c.type == "comment":
+                if stage > 4:
+                    raise shape
+                runs[stage].append((g, self.t(c.start_byte, c.end_byte)))
+            elif stage <= 4 and isinstance(want[stage], str):
+                if c.type != want[stage] or c.child_count != 0 or self.t(c.start_byte, c.end_byte) != want[stage]:
+                    raise shape
+                gaps[stage], stage = g, stage + 1
+            elif stage <= 4 and c.id == want[stage].id:
+                gaps[stage], parts[stage], stage = g, self.expr(c), stage + 1
+            else:
+                raise shape
+            pos, prev = c.end_byte, c
+        if stage != 5:
+            raise shape
+        return ("I", runs[0], gaps[0], parts[0], runs[1], gaps[1], runs[2], gaps[2], parts[2], runs[3], gaps[3],
+                runs[4], gaps[4], parts[4])
+
+    def has_attr(self, n):
+        """expression c1 g1 `?` c2 g2 a₁ `.` a₂ …"""
+        shape = OutsideFragment("has-attr shape")
+        ch = n.children
+        base, ap = n.child_by_field_name("expression"), n.child_by_field_name("attrpath")
+        if (base is None or ap is None or len(ch) < 3 or ch[0].id != base.id or ch[-1].id != ap.id
+                or ap.type != "attrpath"):
+            raise shape
+        e = self.expr(base)
+        runs = [[], []]
+        gaps = [None, None]
+        stage, pos, prev = 0, base.end_byte, base
+        for c in ch[1:]:
+            g = self.gap(pos, c.start_byte)
+            self.rows(prev, c, g)
+            if c.type == "comment":
+                if stage > 1:
+                    raise shape
+                runs[stage].append((g, self.t(c.start_byte, c.end_byte)))
+            elif stage == 0 and c.type == "?":
+                if c.child_count != 0 or self.t(c.start_byte, c.end_byte) != "?":
+                    raise shape
+                gaps[0], stage = g, 1
+            elif stage == 1 and c.id == ap.id:
+                gaps[1], stage = g, 2
+            else:
+                raise shape
+            pos, prev = c.end_byte, c
+        if stage != 2:
+            raise shape
+        return ("H", e, runs[0], gaps[0], runs[1], gaps[1], self.attrpath(ap))
 
     def binary(self, n):
         """left c1 g1 operator c2 g2 right — `binary_expression`"""
@@ -478,6 +556,13 @@ def flatten(x) -> str:
     if k == "B":
         gc = lambda r: "".join(g + c for g, c in r)  # noqa: E731
         return flatten(x[1]) + gc(x[2]) + x[3] + x[4] + gc(x[5]) + x[6] + flatten(x[7])
+    if k == "I":
+        gc = lambda r: "".join(g + c for g, c in r)  # noqa: E731
+        return ("if" + gc(x[1]) + x[2] + flatten(x[3]) + gc(x[4]) + x[5] + "then" + gc(x[6]) + x[7] + flatten(x[8])
+                + gc(x[9]) + x[10] + "else" + gc(x[11]) + x[12] + flatten(x[13]))
+    if k == "H":
+        gc = lambda r: "".join(g + c for g, c in r)  # noqa: E731
+        return flatten(x[1]) + gc(x[2]) + x[3] + "?" + gc(x[4]) + x[5] + ".".join(x[6])
     if k == "c":
         return x[1] + x[2]
     if k == "e":
@@ -519,6 +604,13 @@ def sexp(x):
     if k == "B":
         gc = lambda r: [[hx(g), hx(c)] for g, c in r]  # noqa: E731
         return ["B", sexp(x[1]), gc(x[2]), hx(x[3]), hx(x[4]), gc(x[5]), hx(x[6]), sexp(x[7])]
+    if k == "I":
+        gc = lambda r: [[hx(g), hx(c)] for g, c in r]  # noqa: E731
+        return ["I", gc(x[1]), hx(x[2]), sexp(x[3]), gc(x[4]), hx(x[5]), gc(x[6]), hx(x[7]), sexp(x[8]), gc(x[9]),
+                hx(x[10]), gc(x[11]), hx(x[12]), sexp(x[13])]
+    if k == "H":
+        gc = lambda r: [[hx(g), hx(c)] for g, c in r]  # noqa: E731
+        return ["H", sexp(x[1]), gc(x[2]), hx(x[3]), gc(x[4]), hx(x[5]), [hx(a) for a in x[6]]]
     if k == "c":
         return ["c", hx(x[1]), hx(x[2])]
     if k == "e":
@@ -556,6 +648,10 @@ def code_tokens(x) -> list[str]:
         return [x[1]] + code_tokens(x[4])
     if k == "B":
         return code_tokens(x[1]) + [x[4]] + code_tokens(x[7])
+    if k == "I":
+        return ["if"] + code_tokens(x[3]) + ["then"] + code_tokens(x[8]) + ["else"] + code_tokens(x[13])
+    if k == "H":
+        return code_tokens(x[1]) + ["?"] + [t for i, a in enumerate(x[6]) for t in ((".", a) if i else (a,))]
     if k == "c":
         return []
     if k == "e":
